@@ -36,6 +36,7 @@ inductive Step where
   | discBytes
   | disc (n : Nat)
   | arr (body : List Step)
+  | arrB (elem : Nat) (body : List Step)   -- count checked first: `if n < 0 || n > size/elem { error }` (ApiVersions)
   | ifGe (v : Nat) (body : List Step)
   | failIfErr
   | expect1
@@ -89,6 +90,12 @@ def runStep : Step → P
     match readInt 4 s with
     | (.error e, s') => (.error e, s')
     | (.ok n, s') => iter n.toNat (runSteps body) c s'
+  | .arrB elem body => fun c s =>
+    match readInt 4 s with
+    | (.error e, s') => (.error e, s')
+    | (.ok n, s') =>
+      if n < 0 ∨ n > (s'.sz / elem : Nat) then (.error (.other "invalid element count"), s')
+      else iter n.toNat (runSteps body) c s'
   | .ifGe v body => fun c s => if c.ver ≥ v then runSteps body c s else (.ok c, s)
   | .failIfErr => fun c s => if c.lastErr ≠ 0 then (.error (.kafka c.lastErr), s) else (.ok c, s)
   | .expect1 => fun c s =>
@@ -122,6 +129,7 @@ mutual
 def Step.hasFail : Step → Bool
   | .failIfErr => true
   | .arr body => hasFailList body
+  | .arrB _ body => hasFailList body
   | .ifGe _ body => hasFailList body
   | _ => false
 def hasFailList : List Step → Bool
@@ -140,6 +148,7 @@ def Step.eqv : Step → Step → Bool
   | .discBytes, .discBytes => true
   | .disc a, .disc b => a == b
   | .arr a, .arr b => stepsEq a b
+  | .arrB e a, .arrB f b => e == f && stepsEq a b
   | .ifGe v a, .ifGe w b => v == w && stepsEq a b
   | .failIfErr, .failIfErr => true
   | .expect1, .expect1 => true
@@ -189,8 +198,8 @@ def fetchHeaderV10 : List Step :=
 def fetchHeader (v : Nat) : List Step :=
   if v ≥ 10 then fetchHeaderV10 else if v ≥ 5 then fetchHeaderV5 else fetchHeaderV2
 
-/-- conn.go ApiVersions (v0): error code, int32 count, `make([]ApiVersion, n)`, n × (int16 int16 int16) -/
-def apiVersionsParse : List Step := [ .err, .arr [ .int 2, .int 2, .int 2 ] ]
+/-- conn.go ApiVersions (v0): error code, int32 count (rejected if negative or larger than size/6), n × (int16 int16 int16) -/
+def apiVersionsParse : List Step := [ .err, .arrB 6 [ .int 2, .int 2, .int 2 ] ]
 
 /-! ### one request/response exchange: (*Conn).do and friends -/
 
